@@ -369,7 +369,7 @@ func (i *openidHandler) validateProof(ctx context.Context, flow *Flow, request o
 	}
 
 	// given the JWT typ, the nonce is in the 'nonce' claim
-	nonce, ok := token.Get("nonce")
+	nonceClaim, ok := token.Get("nonce")
 	if !ok {
 		return generateProofError(openid4vci.Error{
 			Err:        errors.New("missing nonce claim"),
@@ -377,9 +377,17 @@ func (i *openidHandler) validateProof(ctx context.Context, flow *Flow, request o
 			StatusCode: http.StatusBadRequest,
 		})
 	}
+	nonce, ok := nonceClaim.(string)
+	if !ok {
+		return generateProofError(openid4vci.Error{
+			Err:        errors.New("invalid nonce claim"),
+			Code:       openid4vci.InvalidProof,
+			StatusCode: http.StatusBadRequest,
+		})
+	}
 
 	// check if the nonce matches the one we sent in the offer
-	flowFromNonce, err := i.store.FindByReference(ctx, cNonceRefType, nonce.(string))
+	flowFromNonce, err := i.store.FindByReference(ctx, cNonceRefType, nonce)
 	if err != nil {
 		return err
 	}
